@@ -11,7 +11,7 @@ for t in TY:
         tiers = ('quick', 'thorough') if (t, k) in Q else ('thorough',)
         n = 5 if t in ('T_SeqX', 'T_SeqX1') else 4      # T-SeqX needs 5 octets to reach the extension bitmap
         def mk(name, src, defs, fn, inp):
-            h = typed(H, name, src, t, k, tiers=tiers, leak=True, alloc=True, defines=defs, functions=[fn], inputs=inp, model_defines=['-DVERIF_ALLOC_ROUND'],
+            h = typed(H, name, src, t, k, tiers=tiers, leak=True, alloc=True, defines=defs, functions=[fn], inputs=inp, model_defines=(['-DVERIF_ALLOC_ROUND'] if t == 'T_SeqX1' else []),
                       bounds='one allocation failure per history; histories of at most three codec calls')
             if t == 'T_IntW':
                 h.gen = dict(h.gen, opts=h.gen['opts'] + ['-fwide-types'])
